@@ -37,6 +37,8 @@ def n_cases(tier, seed):
 def _geometry(rng, tier):
     big = 40 if tier == "quick" else 600
     c = rng.choice(["1x1", "1xN", "Nx1", "NxM", "NxM", "NxM", "big"])
+    if tier == "thorough" and rng.random() < 0.01:
+        return rng.randrange(1500, 5001), rng.randrange(1, 3)  # beyond the default chunk size of 1024 lines
     if c == "1x1":
         return 1, 1
     if c == "1xN":
